@@ -60,8 +60,11 @@ def run_case(case, ctx):
         for a in range(len(fr)):
             for b in range(a + 1, len(fr)):
                 s = tr.dist(cfg, L, dim, T[fr[a]][0], T[fr[b]][0]) - T[fr[a]][1] - T[fr[b]][1]
-                if s < tr.TOL:
+                ov = tr.overlapping(s, block)
+                if ov is None or ov:  # overlapping or ambiguous contact: precondition of the next two clauses not met
                     inframe_overlap = True
+                elif s == 0:
+                    ctx.count("frames-with-exact-contact")
     if inframe_overlap:
         ctx.count("frames-with-internal-overlap")
         return
@@ -73,4 +76,4 @@ def run_case(case, ctx):
 
 def expected_positive(tier):
     return ["C06.partition", "C06.one-per-frame", "C06.gap-free", "C06.input-unmodified", "C06.copies", "two-nonempty-frames",
-            "gap-frame-between-nonempty", "frames-with-internal-overlap"]
+            "gap-frame-between-nonempty", "frames-with-internal-overlap", "frames-with-exact-contact"]
